@@ -4,6 +4,9 @@ import json, os, sys
 sys.path.insert(0, os.path.dirname(os.path.abspath(__file__)))
 from checkspec import CHECKS, NOT_APPLICABLE, ENGINES, HOOK_COMMITS
 
+_kf = json.load(open(os.path.join(os.path.dirname(os.path.abspath(__file__)), "known_findings.json")))
+FIXES = ", ".join(f"{l.split()[2]} ({l.split()[1].split('=')[1]})" for l in _kf["fixed"])
+OPEN = ", ".join(f["id"] for f in _kf["findings"] if f.get("status") == "open") or "none"
 checks = []
 for pid in sorted(CHECKS):
     c = CHECKS[pid]
@@ -32,7 +35,7 @@ manifest = {
     "engines": ENGINES,
     "checks": checks,
     "not_applicable": NOT_APPLICABLE,
-    "notes": "Technique family: runtime monitoring and sanitizers. Every verdict is produced by an oracle observing executions of the real ddo code built from /repo's working tree. Exit codes of ./check: 0 held on everything explored (KNOWN-FINDING lines allowed), 1 VIOLATION, 2 harness error / nothing non-trivial observed. Known findings: /verif/known_findings.json. fix: commits in /repo: f824deb (C11), 633812e (C17), 61c0d19 (C04), b84300f (C05).",
+    "notes": "Technique family: runtime monitoring and sanitizers. Every verdict is produced by an oracle observing executions of the real ddo code built from /repo's working tree. Exit codes of ./check: 0 held on everything explored (KNOWN-FINDING lines allowed), 1 VIOLATION, 2 harness error / nothing non-trivial observed. Known findings: /verif/known_findings.json (open: " + OPEN + "). fix: commits in /repo: " + FIXES + ".",
 }
 json.dump(manifest, open(os.path.join(os.path.dirname(os.path.abspath(__file__)), "MANIFEST.json"), "w"), indent=1)
 print("MANIFEST.json:", len(checks), "checks,", len(NOT_APPLICABLE), "not applicable")
